@@ -36,7 +36,7 @@ ASSUMPTIONS = [
     "equidistant nearest labels under tol: any minimiser accepted",
 ]
 MANDATORY = ["axis:shuf", "axis:dec", "desc:list", "desc:mask", "desc:scalar", "desc:absent-scalar", "desc:absent-in-list:below",
-             "desc:absent-in-list:between", "desc:absent-in-list:above", "desc:repeated", "desc:empty-list", "mixed-kinds",
+             "desc:absent-in-list:between", "desc:absent-in-list:above", "desc:absent-other-kind", "prior-read:nloc", "prior-read:tol", "desc:repeated", "desc:empty-list", "mixed-kinds",
              "tol:hit", "tol:miss", "tol:by-position", "by:position", "by:label", "shuffled-axis-with-list", "position:negative"]
 
 
@@ -83,11 +83,19 @@ def label_desc(draw, labs, allow_absent=True):
         # a non-integral query on an integer axis: absent, although truncating or rounding it would hit a label
         ab = draw(st.sampled_from(labs)) + draw(st.sampled_from([0.5, -0.5, 0.25, 0.75]))
         where = "between"
+    other = False
+    if n and draw(st.integers(0, 3)) == 0:
+        # an absent label of the other kind: a number that would be a valid position on a str axis, the text of a number on a numeric axis
+        ab = draw(st.sampled_from([0, 1, n - 1, 1.0])) if kind == "s" else draw(st.sampled_from(["a", str(labs[0])]))
+        other = True
     if k == "absent-scalar":
-        return {"k": "scalar", "v": ab, "absent": where}
+        return dict({"k": "scalar", "v": ab, "absent": where}, **({"otherkind": True, "np": draw(st.booleans())} if other else {}))
     v = draw(st.lists(st.sampled_from(labs), min_size=0, max_size=2)) if n else []
     pos = draw(st.integers(0, len(v)))
     v = v[:pos] + [ab] + v[pos:]
+    if other:
+        v = [ab] * draw(st.integers(1, 2))      # (lists hold one kind)
+        return {"k": "list", "v": v, "as": "list", "absent": where, "otherkind": True}
     return {"k": "list", "v": v, "as": draw(st.sampled_from(["list", "array"])), "absent": where}
 
 
@@ -132,7 +140,7 @@ def index_case(draw, max_size=4):
         lidx.append(d)
     pidx = [draw(pos_desc(len(labs))) for labs in spec["labels"]]
     return {"mode": "index", "spec": spec, "lidx": lidx, "pidx": pidx, "by": draw(st.sampled_from(["label", "label", "position"])),
-            "keepdims": draw(st.sampled_from([False, False, True]))}
+            "keepdims": draw(st.sampled_from([False, False, True])), "prior": draw(st.sampled_from([None, None, None, "nloc", "tol", "ix"]))}
 
 
 @st.composite
@@ -203,6 +211,21 @@ def run_index(case):
     with core.options(indexing_by=by):
         a = core.build(spec)
         snap = core.snapshot(a)
+        prior_tag = None
+        if case.get("prior") and nd >= 1 and all(len(l) for l in labels):
+            # an earlier read of the same array - nearest neighbour, with a tolerance, by position - leaves no mode behind for the next one
+            k0 = next((i for i, l in enumerate(labels) if core.label_kind(l) in "if"), None)
+            sigp = {"mode": "index", "prior": case["prior"]}
+            if case["prior"] == "ix":
+                lib(lambda: a.take(0, axis=0, indexing="position"), what="take(0, axis=0, indexing='position') (earlier read)", sig=sigp)
+                prior_tag = "prior-read:ix"
+            elif k0 is not None:
+                q = tuple([slice(None)] * k0 + [labels[k0][0] + 0.25])
+                if case["prior"] == "nloc":
+                    lib(lambda: a.nloc[q], what="a.nloc[%r] (earlier read)" % (q,), sig=sigp)
+                else:
+                    lib(lambda: a.take(q[-1], axis=k0, tol=1.0, indexing="label"), what="take(%r, axis=%d, tol=1.0, indexing='label') (earlier read)" % (q[-1], k0), sig=sigp)
+                prior_tag = "prior-read:" + case["prior"]
         lt = tuple(im.index_object(d) for d in lidx)
         pt = tuple(im.index_object(d) for d in pidx)
         if nd >= 2 and pidx[0] == pidx[1] and isinstance(pt[0], np.ndarray):
@@ -210,6 +233,8 @@ def run_index(case):
         frozen = [(x, x.copy()) for x in lt + pt if isinstance(x, np.ndarray)]
         ldict0 = None
         lexc = _expected(dims, labels, lidx)
+        if lexc is not None and any(d.get("otherkind") and d["k"] == "list" for d in lidx):
+            lexc.types = (IndexError, TypeError)        # a list of another kind cannot even be compared with the labels: refused either way, never answered
         pexc = _expected(dims, labels, pidx)
         nonfull_l = [i for i, d in enumerate(lidx) if d["k"] != "full"]
         nonfull_p = [i for i, d in enumerate(pidx) if d["k"] != "full"]
@@ -295,7 +320,7 @@ def run_index(case):
             check(x.dtype == x0.dtype and np.array_equal(x, x0), "index-argument-modified", {"what": "lidx=%s pidx=%s" % (core.jsonable(lidx), core.jsonable(pidx)),
                                                                                              "before": core.jsonable(x0), "after": core.jsonable(x)}, {"mode": "operand"})
 
-    cl = ["by:" + by]
+    cl = ["by:" + by] + ([prior_tag] if prior_tag else [])
     for labs, d in zip(labels, lidx):
         o = gen.order_of(labs)
         cl.append("axis:" + o)
@@ -309,8 +334,12 @@ def run_index(case):
                 cl.append("desc:empty-list")
             if "absent" in d:
                 cl.append("desc:absent-in-list:" + d["absent"])
+            if d.get("otherkind"):
+                cl.append("desc:absent-other-kind")
         elif d["k"] == "scalar":
             cl.append("desc:absent-scalar" if "absent" in d else "desc:scalar")
+            if d.get("otherkind"):
+                cl.append("desc:absent-other-kind")
         elif d["k"] == "mask":
             cl.append("desc:mask")
         if labs:
